@@ -25,11 +25,21 @@ Proof. exact get_field_spec. Qed.
 Print Assumptions C01_get_field_spec.
 
 (* the match data of one link: exactly the (variable, key, transformed value) triples that satisfy
-   the operator (xor '!'); with multiMatch one triple per satisfying intermediate value *)
+   the operator (xor '!'); with multiMatch one triple per satisfying intermediate value.  Each target
+   is read in the state the EARLIER targets of the same link left (every match moves MATCHED_VAR,
+   MATCHED_VAR_NAME, MATCHED_VARS at once): ARGS_GET|MATCHED_VAR reports both ARGS_GET:a and MATCHED_VAR *)
 Theorem C01_link_matchdata_exact : forall X ord st l, wf_state st -> ok_oracle ord ->
+  Permutation (link_matches X ord st l) (spec_link_matches_t X ord st l).
+Proof. exact link_matches_spec_t. Qed.
+Print Assumptions C01_link_matchdata_exact.
+
+(* ... and for a link that reads none of the MATCHED_* variables this is the order-free, state-free
+   list: every target selected in the state before the link *)
+Theorem C01_link_matchdata_declarative : forall X ord st l, wf_state st -> ok_oracle ord ->
+  reads_mvar l = false ->
   Permutation (link_matches X ord st l) (spec_link_matches X st l).
 Proof. exact link_matches_spec. Qed.
-Print Assumptions C01_link_matchdata_exact.
+Print Assumptions C01_link_matchdata_declarative.
 
 (* a rule fires iff every link holds, in order, each against the state its predecessor left *)
 Theorem C01_fires_iff : forall X ord st r, wf_state st -> ok_oracle ord ->
@@ -37,7 +47,7 @@ Theorem C01_fires_iff : forall X ord st r, wf_state st -> ok_oracle ord ->
 Proof. exact rule_fires_iff. Qed.
 Print Assumptions C01_fires_iff.
 
-(* ... which, for SecRule links that do not read MATCHED_VAR, is: every link has a selected value
+(* ... which, for SecRule links that read none of MATCHED_VAR / MATCHED_VAR_NAME / MATCHED_VARS(_NAMES), is: every link has a selected value
    that satisfies its operator after the transformations (xor '!') - no reference to the order oracle *)
 Theorem C01_fires_iff_declarative : forall X ord st r, wf_state st -> ok_oracle ord ->
   Forall (fun l => reads_mvar l = false /\ is_action l = false) (rule_links r) ->
